@@ -179,6 +179,7 @@ def expected_result(fe, kind):
 def run_exchange(ctx, rng, fe, ops, script, jitter=False):
     """ops: list of (verb, prefix) issued concurrently at the same instant."""
     res = {'viol': [], 'rets': None, 'fw': None}
+    reuse_lists = len(ops) > 1 and rng.random() < 0.4
 
     async def main(S):
         face = RecFace()
@@ -199,18 +200,31 @@ def run_exchange(ctx, rng, fe, ops, script, jitter=False):
                     except ValueError:
                         pass
 
+        args_given = []
+
         async def one(verb, prefix):
+            # the caller's own list object (a NonStrictName): it is edited again as soon as the calls have been started
+            arg = [bytes(c) for c in prefix] if reuse_lists else prefix
+            args_given.append(arg)
             try:
                 if verb == 'register':
-                    r = await (the_app.register(prefix) if fe == 'v2' else the_app.register(prefix, None))
+                    r = await (the_app.register(arg) if fe == 'v2' else the_app.register(arg, None))
                 else:
-                    r = await the_app.unregister(prefix)
+                    r = await the_app.unregister(arg)
                 return ('ret', r)
             except BaseException as e:   # noqa
                 if isinstance(e, asyncio.CancelledError):
                     raise
                 return ('exc', e)
-        rets = await asyncio.gather(*[one(v, p) for v, p in ops])
+        tasks = [asyncio.ensure_future(one(v, p)) for v, p in ops]
+        if reuse_lists:
+            await asyncio.sleep(0)          # every call has started (all but one wait for their turn)
+            for a_ in args_given:
+                if isinstance(a_, list) and a_:
+                    a_[-1] = C(b'EDITED-BY-CALLER')
+                    a_.append(C(b'x'))
+            ctx.event('caller-edits-name-list-after-call')
+        rets = await asyncio.gather(*tasks)
         res['rets'] = rets
         the_app.shutdown()
         await asyncio.wait_for(main_task, 5)
@@ -459,7 +473,7 @@ def run(ctx):
         for variant in range(ctx.n(12, 400)):
             check_routes(ctx, rng, fe, variant)
     check_parse_response(ctx, rng)
-    for k in ['exchange', 'concurrent-exchange', 'route-connection', 'reconnect-within-one-millisecond', 'parse-response'] + [f'reply-{r}' for r in REPLIES]:
+    for k in ['caller-edits-name-list-after-call', 'exchange', 'concurrent-exchange', 'route-connection', 'reconnect-within-one-millisecond', 'parse-response'] + [f'reply-{r}' for r in REPLIES]:
         ctx.need_event(k)
     ctx.assumptions = ['a 200 reply whose signature is bad counts as success in the current front-end (its commands use pass_all) and as failure in the legacy one',
                        'jitter clock: non-decreasing, 0..0.6 ms per reading (a legal wall clock)']
